@@ -207,9 +207,8 @@ inline constexpr void Conversion<Unit::Frequency, Unit::Frequency::PerHour>::ToS
 }
 
 template <typename NumericType>
-inline const std::
-    map<Unit::Frequency, std::function<void(NumericType* values, const std::size_t size)>>
-        MapOfConversionsFromStandard<Unit::Frequency, NumericType>{
+inline const ConversionTable<Unit::Frequency, NumericType>
+    MapOfConversionsFromStandard<Unit::Frequency, NumericType>{
           {Unit::Frequency::Hertz,
            Conversions<Unit::Frequency, Unit::Frequency::Hertz>::FromStandard<NumericType>    },
           {Unit::Frequency::Kilohertz,
@@ -225,9 +224,8 @@ inline const std::
 };
 
 template <typename NumericType>
-inline const std::
-    map<Unit::Frequency, std::function<void(NumericType* const values, const std::size_t size)>>
-        MapOfConversionsToStandard<Unit::Frequency, NumericType>{
+inline const ConversionTable<Unit::Frequency, NumericType>
+    MapOfConversionsToStandard<Unit::Frequency, NumericType>{
           {Unit::Frequency::Hertz,
            Conversions<Unit::Frequency, Unit::Frequency::Hertz>::ToStandard<NumericType>    },
           {Unit::Frequency::Kilohertz,
